@@ -408,6 +408,9 @@ func c16Run(c *fx.Ctx) {
 						c.Add("states", 1)
 						c.Distinct("states", k.name+string(k16[:]))
 					}
+					if len(cur.path) == 2 {
+						c.Sample(map[string]interface{}{"kind": k.name, "history": names(), "observation": clipS(got)})
+					}
 					np := append(append([]int{}, cur.path...), oi)
 					next = append(next, st{np})
 				}
